@@ -110,7 +110,7 @@ ALL_CHECKS = {
 for _k, _v in ALL_CHECKS.items():
     _v["design"] = "DESIGN.md section 3, " + _k
 
-IMPLEMENTED_IDS = ["C01", "C02", "C03", "C04", "C05", "C06", "C07", "C13", "C16", "C17", "C18", "C19"]
+IMPLEMENTED_IDS = ["C01", "C02", "C03", "C04", "C05", "C06", "C07", "C13", "C14", "C15", "C16", "C17", "C18", "C19"]
 IMPLEMENTED = {k: ALL_CHECKS[k] for k in IMPLEMENTED_IDS}
 
 NOT_YET = "check not built yet in this round; planned per DESIGN.md section 3"
@@ -146,7 +146,7 @@ def main():
             "guard": "cargo feature verif_hooks (coap-lite)",
             "enable": "harness feature `hooks` -> coap-lite/verif_hooks; ./check always builds with it",
             "baseline_off_cmd": "cd /repo && cargo test --workspace --no-fail-fast --offline",
-            "source_commits": [],
+            "source_commits": ["0d69b07"],
             "add_only": True,
         },
         "engines": [
